@@ -137,6 +137,7 @@ type Snap struct {
 	Owner        string
 	Phase        string
 	Fins         string
+	FinsRaw      string // finalizers in stored order
 	Labels       string
 	Annots       string
 	Val          string
@@ -155,6 +156,7 @@ func SnapOf(r resource.Resource) Snap {
 		NS: md.Namespace(), Type: md.Type(), ID: md.ID(),
 		Version: md.Version().String(), Owner: md.Owner(), Phase: md.Phase().String(),
 		Fins:    strings.Join(fins, ","),
+		FinsRaw: strings.Join([]string(*md.Finalizers()), ","),
 		Labels:  kvString(md.Labels().Raw()),
 		Annots:  kvString(md.Annotations().Raw()),
 		Val:     sp.Val,
